@@ -128,3 +128,51 @@ func zzC06_big() {
 	zzAssert(err == nil && x.ImageDescription == ref.ImageDescription, "a long text value decodes alike from every container")
 	zzReached("end")
 }
+
+// a payload whose first directory does not follow the TIFF header directly (offset 16, 8 arbitrary bytes in between)
+// decodes alike from every container
+func zzC06_ifdoff_N() int { return 6 }
+func zzC06_ifdoff() {
+	be := zzPart()%2 == 1
+	t := zzNewTiff(16+2+2*12+4+8, be, 16)
+	t.bytes(8, zzBytes("gap", 8))
+	t.dir(16, 2, 0)
+	t.entShort(16, 0, 0x0100, zzU16("w"))
+	t.entShort(16, 1, 0x0112, zzU16("o"))
+	p := t.b
+	// the gap must not look like a TIFF signature (it would legitimately be found first by the header search)
+	ref, eref := DecodeTiff(zzReaderOf(p))
+	zzAssert(eref == nil, "the bare TIFF file decodes")
+	var x exif2.Exif
+	var err error
+	switch zzPart() / 2 {
+	case 0:
+		b := []byte{0xff, 0xd8, 0xff, 0xe1, 0, byte(2 + 6 + len(p))}
+		b = append(b, "Exif\x00\x00"...)
+		b = append(b, p...)
+		b = append(b, 0xff, 0xdb, 0, 2)
+		b = append(b, make([]byte, 70)...)
+		x, err = DecodeJPEG(zzReaderOf(b))
+	case 1:
+		b := []byte("\x89PNG\r\n\x1a\n")
+		b = append(b, zzBE32(len(p))...)
+		b = append(b, 'e', 'X', 'I', 'f')
+		b = append(b, p...)
+		b = append(b, 0, 0, 0, 0)
+		x, err = DecodePng(zzReaderOf(b))
+	default:
+		b := []byte(zzFtypCR3)
+		b = append(b, zzBE32(8+8+16+8+len(p))...)
+		b = append(b, 'm', 'o', 'o', 'v')
+		b = append(b, zzBE32(8+16+8+len(p))...)
+		b = append(b, 'u', 'u', 'i', 'd')
+		b = append(b, "\x85\xc0\xb6\x87\x82\x0f\x11\xe0\x81\x11\xf4\xce\x46\x2b\x6a\x48"...)
+		b = append(b, zzBE32(8+len(p))...)
+		b = append(b, 'C', 'M', 'T', '1')
+		b = append(b, p...)
+		b = append(b, 0, 0, 0, 8, 'f', 'r', 'e', 'e')
+		x, _ = DecodeCR3(zzReaderOf(b))
+	}
+	zzAssert(err == nil && x.ImageWidth == ref.ImageWidth && x.Orientation == ref.Orientation, "a payload whose first directory is at offset 16 decodes alike from every container")
+	zzReached("end")
+}
